@@ -29,7 +29,13 @@
   language is that of `Model/Cycle.lean` with `ite` testing the low bit of an input (as the
   harness does) plus `add` (`(a + b) % 4`, the non-monotone counter of the diverging flavour).
   The correspondence with salsa on values, panic classes and events is established by the line
-  protocol (`svdriver cyclerev`), not by proof.  Core Lean only.
+  protocol (`svdriver cyclerev`: byte-identical answers and event sequences on the unchanged op
+  files of `vh seq --profile cycle`), not by proof.  The last section holds the references: the
+  translation to `Model/Cycle.lean` (`toCycle`, `envOfVals`) and the decidable closed-table
+  certificates (`closedOn`, `fbClosedOn`, `certB`) that `Props/C12Rev.lean` / `C13Rev.lean` turn
+  into "this answer is the least fixpoint / the fallback reference".  Proofs about this file:
+  `Proofs/CycleRevLe*.lean` (every value is below every post-fixpoint), `Proofs/CycleRevFb.lean`,
+  `Proofs/CycleRevMech.lean`.  Core Lean only.
 -/
 import SalsaVerif.Gen.Stamp
 import SalsaVerif.Model.Cycle
@@ -788,33 +794,42 @@ def backdateIfAppropriate (old : Memo) (cq : Memo) : Option Memo :=
     if old.ca > cq.ca && old.heads.isEmpty then none else some { cq with ca := old.ca }
   else some cq
 
--- fn execute; `mode0` = the release mode of the claim guard as claimed
+-- fn execute, first half: run the query function (`CycleRecoveryStrategy::Panic`: once;
+-- otherwise execute_maybe_iterate); `mode0` = the release mode of the claim guard as claimed
+def executeQuery (P : Prog) (sub : Eng) (c : Nat) (old : Option Memo) (mode0 : Mode) (s0 : St) :
+    Res Completed :=
+  match P.strat c with
+  | .panic =>
+    let s1 := seedFrame (pushQuery s0 c) old
+    match onPanic popQuery (evalM sub.fetch (P.node c).body s1) with
+    | .error p => .error p
+    | .ok (v, s2) =>
+      match s2.stack with
+      | [] => .error ⟨.internal, s2⟩
+      | fr :: _ =>
+        .ok (⟨some v, s2.cur, fr.ca, fr.dur, fr.edges, fr.heads, 0, fr.heads.isEmpty, false⟩, mode0,
+             popQuery s2)
+  | _ => executeMaybeIterate P sub c old s0
+
+-- src/zalsa_local.rs: fn discard_edges_if_never_change
+def discardEdgesIfNeverChange (m : Memo) : Memo :=
+  if m.dur ≥ 3 && m.heads.isEmpty then { m with edges := [] } else m
+
+-- fn execute, second half: backdate, insert the memo, release the claim
+def finishExecute (c : Nat) (old : Option Memo) (cq : Memo) (mode : Mode) (s1 : St) : Res St :=
+  match (match old with | some o => backdateIfAppropriate o cq | none => some cq) with
+  | none => .error ⟨.backdateViolation, s1⟩
+  | some cq1 =>
+    let s2 := setMemo s1 c (discardEdgesIfNeverChange cq1)
+    match dropClaim s2 c mode with
+    | none => .error ⟨.internal, releaseDefault s2 c⟩
+    | some s3 => .ok s3
+
+-- fn execute
 def execute (P : Prog) (sub : Eng) (c : Nat) (old : Option Memo) (mode0 : Mode) (s : St) : Res St :=
-  let s0 := emit s (.exec c)
-  let done : Res Completed :=
-    match P.strat c with
-    | .panic =>
-      let s1 := seedFrame (pushQuery s0 c) old
-      match onPanic popQuery (evalM sub.fetch (P.node c).body s1) with
-      | .error p => .error p
-      | .ok (v, s2) =>
-        match s2.stack with
-        | [] => .error ⟨.internal, s2⟩
-        | fr :: _ =>
-          .ok (⟨some v, s2.cur, fr.ca, fr.dur, fr.edges, fr.heads, 0, fr.heads.isEmpty, false⟩, mode0,
-               popQuery s2)
-    | _ => executeMaybeIterate P sub c old s0
-  match done with
+  match executeQuery P sub c old mode0 (emit s (.exec c)) with
   | .error p => .error p
-  | .ok (cq, mode, s1) =>
-    match (match old with | some o => backdateIfAppropriate o cq | none => some cq) with
-    | none => .error ⟨.backdateViolation, s1⟩
-    | some cq1 =>
-      -- discard_edges_if_never_change
-      let cq2 := if cq1.dur ≥ 3 && cq1.heads.isEmpty then { cq1 with edges := [] } else cq1
-      match dropClaim (setMemo s1 c cq2) c mode with
-      | none => .error ⟨.internal, releaseDefault (setMemo s1 c cq2) c⟩
-      | some s2 => .ok s2
+  | .ok (cq, mode, s1) => finishExecute c old cq mode s1
 
 /-! ## Fetch (src/function/fetch.rs) and maybe_changed_after -/
 
@@ -833,40 +848,48 @@ def fetchColdCycle (P : Prog) (c : Nat) (s : St) : Res St :=
         .ok (setMemo s c { m with heads := removeAllExcept m.heads c })
       else .ok (fresh (if m.va = s.cur && m.value.isSome then m.iter else 0))
 
+-- fn fetch_cold, after the claim: "check again to see if there's a hot value" (verify_memo)
+def verifyOld (P : Prog) (sub : Eng) (c : Nat) (old : Option Memo) (s1 : St) : Res (Bool × St) :=
+  match old with
+  | some m => if m.value.isSome then verifyMemo P sub c m s1 else .ok (false, s1)
+  | none => .ok (false, s1)
+
+def fetchColdClaimed (P : Prog) (sub : Eng) (c : Nat) (mode0 : Mode) (s1 : St) : Res St :=
+  let old := memoOf s1 c
+  match verifyOld P sub c old s1 with
+  | .error p => .error p
+  | .ok (true, s2) =>
+    match dropClaim s2 c mode0 with
+    | none => .error ⟨.internal, s2⟩
+    | some s3 => .ok s3
+  | .ok (false, s2) => execute P sub c old mode0 s2
+
 -- fn fetch_cold
 def fetchCold (P : Prog) (sub : Eng) (c : Nat) (s : St) : Res St :=
   let (cl, s1) := tryClaim s c true
   match cl with
   | .cycle _ => fetchColdCycle P c s1
   | .claimed selfOnly =>
-    let mode0 : Mode := if selfOnly then .selfOnly else .default
-    let old := memoOf s1 c
-    onPanic (fun st => releaseDefault st c) (
-      let verified : Res (Bool × St) :=
-        match old with
-        | some m => if m.value.isSome then verifyMemo P sub c m s1 else .ok (false, s1)
-        | none => .ok (false, s1)
-      match verified with
-      | .error p => .error p
-      | .ok (true, s2) =>
-        match dropClaim s2 c mode0 with
-        | none => .error ⟨.internal, s2⟩
-        | some s3 => .ok s3
-      | .ok (false, s2) => execute P sub c old mode0 s2)
+    onPanic (fun st => releaseDefault st c)
+      (fetchColdClaimed P sub c (if selfOnly then .selfOnly else .default) s1)
 
--- fn fetch (refresh_memo: fetch_hot, else fetch_cold), then report_tracked_read
+-- fn fetch_hot
+def fetchHot (s : St) (c : Nat) : Option St :=
+  match memoOf s c with
+  | some m =>
+    let su := shallowVerifyMemo s m
+    if m.value.isSome && su.yes && m.final then some (updateShallow s c su) else none
+  | none => none
+
+-- fn refresh_memo
+def refreshMemo (P : Prog) (sub : Eng) (c : Nat) (s : St) : Res St :=
+  match fetchHot s c with
+  | some s1 => .ok s1
+  | none => fetchCold P sub c s
+
+-- fn fetch: refresh_memo, then report_tracked_read
 def fetchStep (P : Prog) (sub : Eng) (c : Nat) (s : St) : Res (Nat × St) :=
-  let hot : Option St :=
-    match memoOf s c with
-    | some m =>
-      let su := shallowVerifyMemo s m
-      if m.value.isSome && su.yes && m.final then some (updateShallow s c su) else none
-    | none => none
-  let refreshed : Res St :=
-    match hot with
-    | some s1 => .ok s1
-    | none => fetchCold P sub c s
-  match refreshed with
+  match refreshMemo P sub c s with
   | .error p => .error p
   | .ok s1 =>
     match memoOf s1 c with
@@ -967,5 +990,83 @@ def outputs (P : Prog) : St → List Op → List Outcome
   | s, .get q :: ops => (get P s q).1 :: outputs P (get P s q).2 ops
   | s, .set i v nd :: ops => outputs P (write s i v nd) ops
   | s, .synth d :: ops => outputs P (synth s d) ops
+
+/-! ## Reference: translation to `Model/Cycle.lean`, and the closed-table certificate -/
+
+/-- the body language of `Model/Cycle.lean`: `ite i` there tests input `i` ≠ 0, so the low bit of
+    input `i` becomes a shadow input (slot `2 i + 1`; the value itself is slot `2 i`), the same
+    idea as in `checks/cycle_common.py: translate_case`; `add` is outside that language. -/
+def toCycleExpr : Expr → Cycle.Expr
+  | .const c => .const c
+  | .input i => .input (2 * i)
+  | .call j => .call j
+  | .union a b => .union (toCycleExpr a) (toCycleExpr b)
+  | .inter a b => .inter (toCycleExpr a) (toCycleExpr b)
+  | .ite i a b => .ite (2 * i + 1) (toCycleExpr a) (toCycleExpr b)
+  | .add _ _ => .const 0
+
+def toCycle (P : Prog) : Cycle.Prog := ⟨P.nodes.map (fun nd => ⟨nd.strat, toCycleExpr nd.body⟩)⟩
+
+/-- the environment of `Model/Cycle.lean` for input values `vals` (odd slots = low bits). -/
+def envOfVals (vals : List Nat) : Nat → Nat :=
+  fun k => if k % 2 = 0 then vals.getD (k / 2) 0 else vals.getD (k / 2) 0 % 2
+
+/-- the environment of `Model/Cycle.lean` for the inputs `i`. -/
+def envI (i : List Inp) : Nat → Nat := envOfVals (i.map (·.val))
+
+/-- would `validate_provisional` finalise this memo now? -/
+def lazilyFinal (s : St) (m : Memo) : Bool :=
+  (live m.cycleHeads).all (fun h =>
+    match provisionalStatus s h.key with
+    | some (.final it va) => va == m.va && it == h.iter
+    | _ => false)
+
+/-- the value of the (effectively) finalised memo of node `j`, if there is one. -/
+def finalVal (s : St) (j : Nat) : Option Nat :=
+  match memoOf s j with
+  | some m => if m.final || lazilyFinal s m then m.value else none
+  | none => none
+
+def finalEnv (s : St) : Nat → Nat := fun j => (finalVal s j).getD 0
+
+/-- the nodes reachable from the nodes `R` in `k` steps of the call graph at the current inputs. -/
+def reachFrom (P : Prog) (s : St) : Nat → List Nat → List Nat
+  | 0, R => R
+  | k + 1, R =>
+    reachFrom P s k (R.foldl (fun acc x =>
+      (Cycle.callees (envI s.inp) (toCycleExpr (P.node x).body)).foldl
+        (fun acc c => if acc.contains c then acc else acc ++ [c]) acc) R)
+
+/-- node `x` of the certified set `R`: it is finalised, its callees (at the current inputs)
+    lie in `R`, and its value is its body over the finalised values. -/
+def closedAt (P : Prog) (s : St) (R : List Nat) (x : Nat) : Bool :=
+  match finalVal s x with
+  | none => false
+  | some v =>
+    (Cycle.callees (envI s.inp) (toCycleExpr (P.node x).body)).all (fun c => R.contains c) &&
+    v == Cycle.evalExpr (envI s.inp) (finalEnv s) (toCycleExpr (P.node x).body)
+
+/-- the finalised memos of the nodes `R` are closed under callees and solve the equations at
+    the current inputs (a decidable predicate on a state). -/
+def closedOn (P : Prog) (s : St) (R : List Nat) : Bool := R.all (closedAt P s R)
+
+/-- the same for `cycle_result` programs: a node on a cycle of the call graph holds its
+    fallback value, any other node its body over the finalised values. -/
+def fbClosedAt (P : Prog) (s : St) (R : List Nat) (x : Nat) : Bool :=
+  match finalVal s x with
+  | none => false
+  | some v =>
+    (Cycle.callees (envI s.inp) (toCycleExpr (P.node x).body)).all (fun c => R.contains c) &&
+    (if Cycle.onCycle (toCycle P) (envI s.inp) x then v == Cycle.fallbackValue (toCycle P) x
+     else v == Cycle.evalExpr (envI s.inp) (finalEnv s) (toCycleExpr (P.node x).body))
+
+def fbClosedOn (P : Prog) (s : St) (R : List Nat) : Bool := R.all (fbClosedAt P s R)
+
+/-- certificate for an answer `v` of node `q` (what `svdriver cyclerev-cert` prints): the part of
+    the memo table reachable from `q` is a closed solution that holds `v` for `q`. -/
+def certB (P : Prog) (s : St) (q v : Nat) : Bool :=
+  let R := reachFrom P s P.n [q]
+  (if P.nodes.any (fun nd => match nd.strat with | .fallback _ => true | _ => false)
+   then fbClosedOn P s R else closedOn P s R) && finalVal s q == some v
 
 end SalsaVerif.Model.CycleRev
